@@ -146,6 +146,66 @@ def cmd_case(item):
     return res
 
 
+def outside_case(item):
+    """A fresh project whose first command runs in proj/sub and asks for ../other/<name>: the candidates are those of the
+    target's real location; proj/sub (the directory in front of the ..) is no ancestor of the target and must not be searched."""
+    name, rule_at, decoy, seed = item
+    rnd = random.Random(repr(item))
+    pj = scen.Project({}, 'c13o')
+    top = os.path.realpath(pj.top)
+    anoms = []
+    obs = dict(commands=0)
+    try:
+        for d in ('proj/sub', 'proj/other'):
+            os.makedirs(os.path.join(top, d))
+        abs_t = posixpath.join(top, 'proj/other', name)
+        cands = ref_candidates(abs_t)
+        inside = [c for c in cands if c[0].startswith(top + '/')]
+        # the rule: a default*.do at the chosen level (0 = proj/other, 1 = proj, 2 = scratch top)
+        level_dir = [posixpath.join(top, 'proj/other'), posixpath.join(top, 'proj'), top][rule_at]
+        mine = [c for c in inside if posixpath.dirname(c[0]) == level_dir and posixpath.basename(c[0]).startswith('default')]
+        rule = rnd.choice(mine)
+        common.write_file(rule[0], SCRIPT % 'rule')
+        if decoy:
+            common.write_file(posixpath.join(top, 'proj/sub', 'default.do'), SCRIPT % 'decoy')
+        cwd = posixpath.join(top, 'proj/sub')
+        spelled = '../other/' + name
+        r, _ = pj.run(['redo-whichdo', spelled], cwd=cwd, verif_log=False)
+        obs['commands'] += 1
+        got = [posixpath.normpath(posixpath.join(cwd, l)) for l in r.out.split('\n') if l]
+        want = []
+        for c in cands:
+            want.append(c[0])
+            if os.path.exists(c[0]):
+                break
+        if got != want:
+            k_ = next((i for i, (a, b) in enumerate(zip(got, want)) if a != b), min(len(got), len(want)))
+            anoms.append(dict(key='whichdo-order:outside-first-cwd', what='redo-whichdo %r from proj/sub: position %d is %r, reference says %r'
+                              % (spelled, k_, got[k_] if k_ < len(got) else None, want[k_] if k_ < len(want) else None)))
+        r2, _ = pj.run(['redo-ifchange', spelled], cwd=cwd, verif_log=False)
+        obs['commands'] += 1
+        for a in scen.crash_anoms(r2, '', 'c13'):
+            anoms.append(dict(key='c13-' + a['key'], what=a['what']))
+        body = common.read_file(abs_t)
+        if r2.rc != 0 or body is None:
+            anoms.append(dict(key='build-failed:outside-first-cwd', what='redo-ifchange %r from proj/sub exited %s: %s' % (spelled, r2.rc, r2.err[-300:])))
+        else:
+            kv = dict(l.split('=', 1) for l in body.decode('utf-8', 'replace').split('\n') if '=' in l)
+            exp = dict(ID='rule', A1=rule[2], A2=rule[3], A3=rule[2] + '.redo.tmp', PWD=rule[1])
+            for key in ('ID', 'A1', 'A2', 'A3', 'PWD'):
+                if kv.get(key) != exp[key]:
+                    anoms.append(dict(key='script-%s:outside-first-cwd' % {'ID': 'choice', 'A1': 'arg1', 'A2': 'arg2', 'A3': 'arg3', 'PWD': 'cwd'}[key],
+                                      what='../other/%s via %s: %s is %r, reference says %r' % (name, posixpath.relpath(rule[0], top), key, kv.get(key), exp[key])))
+    finally:
+        pj.close()
+    res = dict(verdict='violated' if anoms else 'held', nontrivial=True, shape=common.shash(list(item)),
+               sample=dict(kind='outside-first-cwd', name=name, rule_level=rule_at, decoy=decoy), obs=obs, sets=dict(chosen_kinds=['outside:%d' % rule_at]))
+    if anoms:
+        res['violations'] = anoms
+        res['replay'] = dict(kind='c13out', item=list(item))
+    return res
+
+
 def direct_case(item):
     """possible_do_files called directly vs the reference, for enumerated names."""
     alphabet, maxlen, depth = item
@@ -158,6 +218,17 @@ def direct_case(item):
                 continue
             for d in dirs:
                 paths.append(d + name)
+    # the same targets spelled with .., . and // (the candidates are those of the cleaned path)
+    clean = list(paths)
+    rnd = random.Random(repr(item))
+    extra = []
+    for p_ in rnd.sample(clean, min(len(clean), 400)):
+        d_, b_ = posixpath.split(p_)
+        alt = rnd.choice([d_.rstrip('/') + '/zz/../' + b_, d_.rstrip('/') + '/./' + b_, d_.rstrip('/') + '//' + b_, '/p0/..' + p_ if p_.startswith('/') else p_,
+                          d_.rstrip('/') + '/zz/yy/../../' + b_])
+        extra.append((alt, p_))
+    paths = clean + [a for a, _ in extra]
+    cleaned = dict(extra)
     out, rc, err = common.native_call('dofiles', [[p.encode()] for p in paths])
     if out is None:
         if 'panicked' in err:
@@ -168,7 +239,7 @@ def direct_case(item):
     lens = set()
     for p, got in zip(paths, out):
         g = [bytes.fromhex(x).decode() for x in got if x]
-        w = [c[0] for c in ref_candidates(p)]
+        w = [c[0] for c in ref_candidates(cleaned.get(p, p))]
         lens.add(len(w))
         if g != w:
             anoms.append(dict(key='direct-candidate-order', what='possible_do_files(%r) = %r..., reference %r...' % (p, g[:4], w[:4])))
@@ -186,6 +257,8 @@ def direct_case(item):
 def dispatch(item):
     if item[0] == 'direct':
         return direct_case(item[1:])
+    if item[0] == 'outside':
+        return outside_case(item[1:])
     return cmd_case(item[1:])
 
 
@@ -193,7 +266,8 @@ RULE = ('command level: target paths at depth 0-3 (directory names with a space 
         'leading/trailing/consecutive dots, spaces, unicode), a random non-empty subset of the in-project candidates present, the target '
         'spelled in 4-8 ways (./, x/../, //, absolute, from sub-directories); redo-whichdo output and the ID/$1/$2/$3/cwd echoed by the '
         'executed script are compared with an independent reference written from the property text; then one mutation (add a higher-priority '
-        'candidate / remove the chosen one / repeat) and the comparison again. Direct level: possible_do_files() for every basename over '
+        'candidate / remove the chosen one / repeat) and the comparison again; fresh projects whose first command runs in proj/sub and asks for '
+        '../other/<name> (rule 0-2 levels above the target, a decoy default.do in proj/sub). Direct level (clean and .././/-spelled paths): possible_do_files() for every basename over '
         'small alphabets up to a length bound x directory depth vs the same reference. Every case is non-trivial; distinct = parameter tuple.')
 ASSUME = ['ancestors of the scratch root contain no default*.do (checked at start-up)', 'targets whose spelling resolves to an existing directory are not generated']
 
@@ -209,6 +283,12 @@ def main(tier):
         for n in NAMES:
             for rep in range(2 if quick else 12):
                 items.append(('cmd', d, n, rnd.randrange(10 ** 6), rnd.randrange(8), muts[(rep + len(n)) % 4]))
+    for n in NAMES:
+        for rule_at in (0, 1, 2):
+            for decoy in (True, False):
+                if quick and (len(n) + rule_at) % 2:
+                    continue
+                items.append(('outside', n, rule_at, decoy, rnd.randrange(1000)))
     rnd.shuffle(items)
     items = [('direct', 'a.x', 5 if quick else 7, 2 if quick else 3), ('direct', 'ab. ', 4 if quick else 5, 2), ('direct', '.é-', 4 if quick else 6, 1)] + items
     deadline = time.time() + (75 if quick else 700)
@@ -224,7 +304,7 @@ def replay(path):
     d = json.load(open(path))
     common.ensure_built()
     it = d['replay']['item']
-    r = direct_case(tuple(it)) if d['replay']['kind'] == 'direct' else cmd_case(tuple(it))
+    r = direct_case(tuple(it)) if d['replay']['kind'] == 'direct' else (outside_case(tuple(it)) if d['replay']['kind'] == 'c13out' else cmd_case(tuple(it)))
     print(r.get('verdict'), r.get('violations'))
     common.cleanup_scratch()
     if r.get('verdict') == 'violated':
